@@ -78,15 +78,25 @@ class Config:
         n = "%s-%s%s-%s" % ({"g++": "gcc", "clang++": "clang"}[self.cxx], self.std.replace("c++", "cxx"),
                             self.opt, self.macro_name)
         if self.san:
-            n += "-san"
+            n += "-" + self.san_mode
         return n
 
+    @property
+    def san_mode(self):
+        # "asan": AddressSanitizer + UBSan(trap) with the ASan runtime (g++ only, driver also instrumented)
+        # "ubtrap": UBSan in trap mode only - needs no runtime, works with either compiler
+        if not self.san:
+            return ""
+        return self.san if isinstance(self.san, str) else "asan"
+
     def flags(self):
-        f = ["-std=" + self.std, self.opt, "-g0", "-fno-strict-aliasing", "-w"]
+        f = ["-std=" + self.std, self.opt, "-fno-strict-aliasing", "-w"] + ([] if self.san else ["-g0"])
         f += ["-DAVEL_" + m for m in self.macros]
         f += mflags(self.macros)
-        if self.san:
-            f += ["-fsanitize=address,undefined", "-fno-sanitize-recover=undefined", "-fno-omit-frame-pointer"]
+        if self.san_mode == "asan":
+            f += ["-fsanitize=address,undefined", "-fsanitize-undefined-trap-on-error", "-fno-omit-frame-pointer", "-g1"]
+        elif self.san_mode == "ubtrap":
+            f += ["-fsanitize=undefined", "-fsanitize-undefined-trap-on-error", "-fno-omit-frame-pointer", "-g1"]
         f += list(self.extra)
         return f
 
